@@ -252,9 +252,13 @@ def g_copy_flow(src_kinds, dst_kinds, pkgs, main='A'):
         dst_before = S.totals(dst)
         src_snap, dst_snap = S.by_phase(src), S.by_phase(dst)
         kw = dict(remove=remove, exclude=exclude)
+        phase_arg = ...
+        if isinstance(dst, tmo.MultiStream) and not isinstance(src, tmo.MultiStream) and not exclude:
+            # an explicit phase: only material of THAT phase is copied (a single-phase source in another phase gives nothing)
+            phase_arg = E.pick([..., 'l', 'g'], 'phase-argument')
         try:
             if isinstance(dst, tmo.MultiStream):
-                dst.copy_flow(src, ..., IDs, **kw)
+                dst.copy_flow(src, phase_arg, IDs, **kw)
             else:
                 dst.copy_flow(src, IDs, **kw)
         except (ValueError, TypeError, IndexError) as e:
@@ -265,6 +269,10 @@ def g_copy_flow(src_kinds, dst_kinds, pkgs, main='A'):
             E.prove('refusal-leaves-streams-intact', clean, sig=sig, info=dict(exc=repr(e)[:200]))
             return
         src_after, dst_after = S.totals(src), S.totals(dst)
+        if phase_arg is not ... and phase_arg != src.phase:
+            E.prove('explicit-other-phase-moves-nothing',
+                    E.all([E.eq(a, b) for a, b in zip(src_after, src_before)] + [E.eq(a, b) for a, b in zip(dst_after, dst_before)]), sig=sig + f'/phase={phase_arg}')
+            return
         cons, kept, dest = [], [], []
         for i, cid in enumerate(ids_all):
             j = m[i]
